@@ -1,13 +1,11 @@
-(** Obligations of C19 over gen/FsGen19.v and gen/FsGen20.v (those of C20 are in FsGenSpec20.v): what the models in coq/Fsx transcribe from the
-    source, compared SEMANTICALLY where go2coq can extract it (comparisons
-    normalised to (smaller, op, larger) with widening conversions and
-    parentheses removed; additive constants, shift amounts and mask widths as
-    numbers, proved equal to the constants the models use; structural facts as
-    booleans).  Text equality remains only for the statement sequences of
-    Mapper.QIDFor and localToQid and the stat/append tail of the localfs loop,
-    rendered by go/printer (insensitive to re-formatting).  An edit that breaks
-    one of these breaks C19_source_shape / C20_source_shape and sends the check
-    into its search for a concrete failing input. *)
+(** Obligations of C19 over gen/FsGen19.v (those of C20 are in FsGenSpec20.v).
+    go2coq extracts what the models in coq/Fsx transcribe SEMANTICALLY: variables
+    are named by their role (parameter position, "the variable the loop
+    increments", "the result of info()"), so renaming a local does not change
+    the table; comparisons are normalised to (smaller, op, larger) with widening
+    conversions and parentheses removed; constants are numbers; structural facts
+    are booleans.  An edit that changes one of these breaks C19_source_shape and
+    sends the check into its (budgeted) search for a concrete failing input. *)
 From Coq Require Import String List Bool NArith.
 From P9V Require Import gen.ConstGen gen.FsGen19 Fsx.Readdir Fsx.LocalDir.
 Import ListNotations.
@@ -21,40 +19,42 @@ Fixpoint strs_eqb (a b : list string) : bool :=
   end.
 Definition cmp_eqb (a b : string * string * string) : bool :=
   let '(a1, a2, a3) := a in let '(b1, b2, b3) := b in String.eqb a1 b1 && String.eqb a2 b2 && String.eqb a3 b3.
-Fixpoint terms_eqb (a b : list (string * N)) : bool :=
-  match a, b with
-  | [], [] => true
-  | (x, n) :: a', (y, m) :: b' => String.eqb x y && N.eqb n m && terms_eqb a' b'
-  | _, _ => false
-  end.
 
 (** the meaning of an extracted comparison operator *)
 Definition cmp_sem (op : string) : option (N -> N -> bool) :=
   if String.eqb op "<" then Some N.ltb else if String.eqb op "<=" then Some N.leb
   else if String.eqb op "==" then Some N.eqb else None.
 
-(** * C19 *)
 Definition fs_readdir_shape_ok : bool :=
-  (* readdir.Readdir:  if len(names) <= offset { return nil, nil } *)
+  (* readdir.Readdir(offset, count, names, qids):  if len(names) <= offset { return nil, nil };
+     range names[offset : min(offset+count, len(names))]; entry i: Offset = offset + i + 1, QID/Type from qids[name] *)
   cmp_eqb fs_readdir_guard ("len(names)", "<=", "offset") && fs_readdir_guard_returns_empty
-  && String.eqb fs_readdir_end "min((offset + count), len(names))"
-  && String.eqb fs_readdir_range "names[offset:end]"
-  (* Offset = offset + <range index> + 1 *)
-  && strs_eqb fs_readdir_Offset_terms [fs_readdir_range_index; "offset"] && N.eqb fs_readdir_Offset_const 1
-  && String.eqb fs_readdir_QID ("qids[" ++ fs_readdir_range_value ++ "]")
-  && String.eqb fs_readdir_Type ("qids[" ++ fs_readdir_range_value ++ "].Type")
-  && String.eqb fs_readdir_Name fs_readdir_range_value
-  (* localfs: rewind, cursor from 0, loop while len < count, read 1 / EOF returns what was collected / cursor++ / skip / entry *)
-  && fs_local_rewinds && String.eqb fs_local_cursor_init "0"
-  && cmp_eqb fs_local_loop_cond ("len(p9Ents)", "<", "count")
+  && String.eqb fs_readdir_range_of "names" && String.eqb fs_readdir_range_low "offset"
+  && String.eqb fs_readdir_range_high "min((offset + count), len(names))"
+  && strs_eqb fs_readdir_Offset_terms ["i"; "offset"] && N.eqb fs_readdir_Offset_const 1
+  && String.eqb fs_readdir_QID "qids[name]" && String.eqb fs_readdir_Type "qids[name].Type"
+  && String.eqb fs_readdir_Name "name" && fs_readdir_body_only_appends
+  (* Local.Readdir: unconditional rewind; cursor from 0, changed only by the one increment; loop while len(ents) < count;
+     read one name / EOF returns what was collected / cursor++ / skip while cursor <= offset / entry of info(path.Join(l.path, name)) *)
+  && fs_local_rewinds && String.eqb fs_local_cursor_init "0" && N.eqb fs_local_cursor_writes 1
+  && cmp_eqb fs_local_loop_cond ("len(ents)", "<", "count")
   && cmp_eqb fs_local_skip ("cursor", "<=", "offset")
-  && strs_eqb fs_local_loop_events ["read 1"; "eof-return p9Ents, nil"; "incr"; "skip"; "entry"]
+  && strs_eqb fs_local_loop_events
+       ["read 1"; "if (err == io.EOF) return ents, nil"; "cursor++"; "skip"; "name := read[0]";
+        "qid := info of Local{path: path.Join(l.path, name)}"; "if (err != nil) return ents, err"; "append entry to ents"]
   && String.eqb fs_local_QID "qid" && String.eqb fs_local_Type "qid.Type" && String.eqb fs_local_Offset "cursor"
-  && String.eqb fs_local_Name "name"
-  && strs_eqb fs_local_loop_rest ["name := singleEnt[0]"; "localEnt := Local{path: path.Join(l.path, name)}";
-                                  "qid, _, err := localEnt.info()"; "if err != nil { return p9Ents, err }"]
-  (* rreaddir.encode: stop when Count < bytes so far *)
-  && cmp_eqb fs_rreaddir_break ("r.Count", "<", "len(entriesBuf.data)").
+  && String.eqb fs_local_Name "name" && N.eqb fs_local_readdir_qid_writes 0
+  (* info(): Type from the mode of the (l)stat result, Path from localToQid; the QID reaches Walk's and GetAttr's
+     callers as info() returned it; GetAttr reports the raw st_mode *)
+  && String.eqb fs_info_type "p9.ModeFromOS(fi.Mode()).QIDType()" && String.eqb fs_info_path "localToQid(l.path, fi)"
+  && strs_eqb fs_info_stat_calls ["l.file.Stat()"; "os.Lstat(l.path)"] && N.eqb fs_info_qid_writes 2
+  && fs_walk_qid_is_info_unmodified && String.eqb fs_walk_info_on "&Local{path: path.Join(last.path, name)}"
+  && fs_getattr_qid_is_info_unmodified && String.eqb fs_getattr_attr_mode "p9.FileMode(<stat>.Mode)"
+  (* rreaddir.encode: encode the next entry into the scratch buffer; stop when Count < bytes so far; only then keep the size;
+     Count and payload are that size *)
+  && cmp_eqb fs_rreaddir_break ("r.Count", "<", "len(scratch.data)")
+  && strs_eqb fs_rreaddir_loop ["encode entry into scratch"; "break-test"; "size = len(scratch.data)"]
+  && strs_eqb fs_rreaddir_after ["r.Count = size"; "r.payload = scratch.data[:size]"; "b.Write32(r.Count)"].
 
 Lemma readdir_shape_ok : fs_readdir_shape_ok = true.
 Proof. vm_compute. reflexivity. Qed.
@@ -71,4 +71,3 @@ Lemma model_local_loop_cond : cmp_sem (snd (fst fs_local_loop_cond)) = Some N.lt
 Proof. reflexivity. Qed.   (* local_loop: [if lenN acc <? count then (continue)] *)
 Lemma model_wire_break : cmp_sem (snd (fst fs_rreaddir_break)) = Some N.ltb.
 Proof. reflexivity. Qed.   (* wire_trunc: [if count <? acc + entry_size d then []] *)
-
